@@ -53,6 +53,15 @@ def build(case, path, extra_recorders_before=(), extra_recorders_after=()):
         tracker = MultiObjectiveProgressTracker(problem, SequentialEvaluator(), recorders=recorders)
     rep = TableRep()
     inds = [Individual((i, tuple(v)), rep) for i, v in enumerate(case["values"])]
+    pre = case.get("prescored", 0)
+    if pre:
+        # the individuals were scored before on ANOTHER problem (an earlier search, co-evolution):
+        # other values, and for pre == 2 more objectives than the logged problem
+        kk = k + (1 if pre == 2 else 0)
+        other = MultiObjectiveProblem([not m for m in (list(case["minimize"]) + [False])[:kk]], lambda p: [x * 10 + 7 for x in (list(p[1]) + [5])[:kk]])
+        for _ in SequentialEvaluator().evaluate_async(other, inds[:: (1 if pre != 3 else 2)]):
+            pass
+        # (the individuals' fitness stores keep `other` alive for the whole history)
     return problem, tracker, inds, rec
 
 
